@@ -117,10 +117,12 @@ def cnv3(p, res):
     byname = {}
     for f, ks, ns, off_param in sites(p):
         byname[f.name] = (f, ks)
-    for name, (fa, ka) in sorted(byname.items()):
-        if not name.endswith("_assign") or name[:-7] not in byname:
-            continue
-        fo, ko = byname[name[:-7]]
+    pairs = [(name, name[:-7], True) for name in sorted(byname) if name.endswith("_assign") and name[:-7] in byname]
+    # the accumulating tensor product has the operands of the plain one (res is only a destination in both)
+    pairs += [(acc, base, False) for acc, base in (("glwe_tensor_apply_add_assign", "glwe_tensor_apply"),) if acc in byname and base in byname]
+    for name, base, first_in_place in pairs:
+        fa, ka = byname[name]
+        fo, ko = byname[base]
         n += 1
 
         def dep_roles(f, ks, inplace):
@@ -176,7 +178,7 @@ def cnv3(p, res):
             for o in sizes:
                 walk(o)
             return out, bool(sizes)
-        da, oka = dep_roles(fa, ka, True)
+        da, oka = dep_roles(fa, ka, first_in_place)
         do, oko = dep_roles(fo, ko, False)
         if not oka or not oko:
             res.undec("CNV-3", "%s / %s: the accumulator is not a scratch temporary" % (fa.pretty, fo.name))
